@@ -292,6 +292,17 @@ def fixtures():
                               guards=[("crps_interval_tw_array", [S(x), S(y)]) for x, y in zip(lo, up)],
                               call=(lambda lx=lx, ux=ux: sp.interval_tw_crps_for_ensemble(ens, obs1, "member", lx, ux)),
                               desc={"pos": pos, "delta": S(delta), "container": "array"}))
+    # LABELS class: the two threshold arrays carry the same station labels stored in a different order — the guard is
+    # about the interval of each STATION (label), not about storage positions
+    ens_l, obs_l = ens.assign_coords(a=[0, 1]), obs1.assign_coords(a=[0, 1])
+    for lo, up in [([0.0, 1.0], [1.0, 2.0]), ([0.0, 1.5], [1.0, 2.0]), ([0.0, 2.5], [1.0, 2.0]), ([0.0, 1.0], [0.5, 0.75]),
+                   ([0.0, 1.0], [0.5, 1.0]), ([2.0, 0.0], [3.0, 1.0])]:
+        lx = xr.DataArray(lo, dims=["a"], coords={"a": [0, 1]})
+        ux = xr.DataArray(up[::-1], dims=["a"], coords={"a": [1, 0]})
+        sites.append(dict(site="interval_tw_crps_for_ensemble.thresholds[labelled array]",
+                          guards=[("crps_interval_tw_array", [S(x), S(y)]) for x, y in zip(lo, up)],
+                          call=(lambda lx=lx, ux=ux: sp.interval_tw_crps_for_ensemble(ens_l, obs_l, "member", lx, ux)),
+                          desc={"lower": [S(x) for x in lo], "upper": [S(y) for y in up], "container": "labelled array, reversed storage"}))
 
     # probability forecasts outside [0, 1] in one element
     probs = [0.0, 1.0, TINY, BELOW1, -TINY, ABOVE1, -0.5, 1.5]
